@@ -98,6 +98,20 @@ impl Reader {
         block_check: BlockCheck,
         in_memory: bool,
     ) -> Result<(Arc<dyn Source>, Region)> {
+        // The cut (and the crc following it) must be inside our region.
+        // This may not be the case with a truncated file (or corrupted offsets).
+        let end = offset
+            .into_u64()
+            .checked_add(size.into_u64())
+            .and_then(|e| e.checked_add(block_check.size() as u64));
+        if end.map_or(true, |e| e > self.region.size().into_u64()) {
+            return Err(format_error!(format!(
+                "Out of reader. Try to cut at {} for {} in a reader of {}",
+                offset,
+                size,
+                self.region.size()
+            )));
+        }
         let region = self.region.cut_rel(offset, size);
         Arc::clone(&self.source).cut(region, block_check, in_memory)
     }
